@@ -499,8 +499,228 @@ def _inline_temps(tree):
                         i += 1
 
 
+_ANCHOR_CACHE = None
+
+
+def anchor_names():
+    """Identifiers that occur in string literals of the checker's own sources and tables (rule anchors, reviewed
+    tables, known-finding keys, mutant texts): a method with such a name is never inlined by `_inline_helpers`, so
+    every rule still finds the function it names."""
+    global _ANCHOR_CACHE
+    if _ANCHOR_CACHE is not None:
+        return _ANCHOR_CACHE
+    import re
+
+    here = os.path.dirname(os.path.abspath(__file__))
+    names = set()
+    ident = re.compile(r"[A-Za-z_][A-Za-z0-9_]*")
+    files = []
+    for root, dirs, fs in os.walk(here):
+        dirs[:] = [d for d in dirs if d != "__pycache__"]
+        files += [os.path.join(root, f) for f in fs if f.endswith(".py")]
+    for path in files:
+        try:
+            tree = ast.parse(open(path, encoding="utf-8").read())
+        except SyntaxError:
+            continue
+        for n in ast.walk(tree):
+            if isinstance(n, ast.Constant) and isinstance(n.value, str):
+                names.update(ident.findall(n.value))
+    kf = os.path.join(os.path.dirname(here), "known_findings.json")
+    if os.path.exists(kf):
+        names.update(ident.findall(open(kf, encoding="utf-8").read()))
+    _ANCHOR_CACHE = names
+    return names
+
+
+def _inline_helpers(trees):
+    """Program-level normal form for extracted helper methods: a method that (a) no rule names (see anchor_names),
+    (b) is referenced exactly once in the whole package, by a call `self.h(...)` that is a whole statement
+    (`self.h(..)`, `t = self.h(..)`, `return self.h(..)`) in another method of the same class, (c) is not overridden or
+    inherited, undecorated, without *args / **kwargs / yield / nested defs, and (d) returns only through one final
+    `return`, is substituted into its caller and removed.  `f(); self._step(x)` and the same code with the body of
+    `_step` written out are then one program to every rule.  Names of the helper are kept where the call site uses the
+    same names (the usual outcome of an extract-method refactoring) and get a suffix otherwise."""
+    import copy as _copy
+
+    anchors = anchor_names()
+    for _round in range(6):
+        refs = {}
+        for tree in trees:
+            for n in ast.walk(tree):
+                if isinstance(n, ast.Attribute):
+                    refs[n.attr] = refs.get(n.attr, 0) + 1
+                elif isinstance(n, ast.Constant) and isinstance(n.value, str) and n.value.isidentifier():
+                    refs[n.value] = refs.get(n.value, 0) + 1  # getattr(self, "name") and the like
+        class_defs = {}
+        for tree in trees:
+            for n in ast.walk(tree):
+                if isinstance(n, ast.ClassDef):
+                    class_defs.setdefault(n.name, []).append(n)
+        method_owners = {}
+        for cs in class_defs.values():
+            for c in cs:
+                for f in c.body:
+                    if isinstance(f, (ast.FunctionDef, ast.AsyncFunctionDef)):
+                        method_owners.setdefault(f.name, []).append(c)
+        changed = False
+        for tree in trees:
+            for cls_ in [n for n in ast.walk(tree) if isinstance(n, ast.ClassDef)]:
+                for h in [f for f in cls_.body if isinstance(f, ast.FunctionDef)]:
+                    nm = h.name
+                    if nm in anchors or nm.startswith("__") or h.decorator_list:
+                        continue
+                    owners = method_owners.get(nm, [])
+                    if len(owners) == 1:
+                        if refs.get(nm, 0) != 1:
+                            continue
+                    else:
+                        # the same helper name in several classes: fine if they are unrelated by inheritance and every
+                        # reference in the package is the single `self.<name>` of one of them
+                        inside = {id(c_): sum(1 for x in ast.walk(c_) if (isinstance(x, ast.Attribute) and x.attr == nm) or (isinstance(x, ast.Constant) and x.value == nm)) for c_ in owners}
+                        if inside.get(id(cls_)) != 1 or sum(inside.values()) != refs.get(nm, 0):
+                            continue
+                        if any(o_ is not cls_ and (o_.name in _ancestors(cls_.name, class_defs) or cls_.name in _ancestors(o_.name, class_defs)) for o_ in owners):
+                            continue
+                    a = h.args
+                    if a.vararg or a.kwarg or a.posonlyargs or not a.args or a.args[0].arg != "self":
+                        continue
+                    if any(isinstance(x, (ast.Yield, ast.YieldFrom, ast.FunctionDef, ast.AsyncFunctionDef, ast.ClassDef, ast.Global, ast.Nonlocal, ast.Await)) and x is not h for x in ast.walk(h)):
+                        continue
+                    body = [s for s in h.body if not (isinstance(s, ast.Expr) and isinstance(s.value, ast.Constant) and isinstance(s.value.value, str))]
+                    rets = [x for x in ast.walk(h) if isinstance(x, ast.Return)]
+                    if len(rets) > 1 or (rets and (not body or body[-1] is not rets[0])):
+                        continue
+                    # the single reference: a whole-statement call in a sibling method
+                    site = None
+                    for g in [f for f in cls_.body if isinstance(f, ast.FunctionDef) and f is not h]:
+                        for owner in ast.walk(g):
+                            for fld in ("body", "orelse", "finalbody"):
+                                blk = getattr(owner, fld, None)
+                                if not (isinstance(blk, list) and blk and isinstance(blk[0], ast.stmt)):
+                                    continue
+                                for i, st in enumerate(blk):
+                                    call = st.value if isinstance(st, (ast.Expr, ast.Return)) else (st.value if isinstance(st, ast.Assign) and len(st.targets) == 1 else None)
+                                    if isinstance(call, ast.Call) and isinstance(call.func, ast.Attribute) and call.func.attr == nm and isinstance(call.func.value, ast.Name) and call.func.value.id == "self":
+                                        site = (g, blk, i, st, call)
+                    if site is None:
+                        continue
+                    g, blk, i, st, call = site
+                    if any(isinstance(x, ast.Starred) for x in call.args) or any(k.arg is None for k in call.keywords):
+                        continue
+                    params = [x.arg for x in a.args[1:]] + [x.arg for x in a.kwonlyargs]
+                    defaults = dict(zip([x.arg for x in a.args[1:]][len(a.args[1:]) - len(a.defaults):], a.defaults))
+                    defaults.update({x.arg: d for x, d in zip(a.kwonlyargs, a.kw_defaults) if d is not None})
+                    bind = {}
+                    pos = [x.arg for x in a.args[1:]]
+                    if len(call.args) > len(pos):
+                        continue
+                    for p_, v_ in zip(pos, call.args):
+                        bind[p_] = v_
+                    ok = True
+                    for k in call.keywords:
+                        if k.arg not in params or k.arg in bind:
+                            ok = False
+                        bind[k.arg] = k.value
+                    for p_ in params:
+                        if p_ not in bind:
+                            if p_ in defaults:
+                                bind[p_] = defaults[p_]
+                            else:
+                                ok = False
+                    if not ok:
+                        continue
+                    stored = {x.id for s in body for x in ast.walk(s) if isinstance(x, ast.Name) and not isinstance(x.ctx, ast.Load)} | {x.target.id for s in body for x in ast.walk(s) if isinstance(x, ast.AugAssign) and isinstance(x.target, ast.Name)}
+                    caller_names = {x.id for x in ast.walk(g) if isinstance(x, ast.Name)} | {x.arg for x in ast.walk(g) if isinstance(x, ast.arg)}
+                    ret_names = []
+                    if rets and rets[0].value is not None:
+                        rv = rets[0].value
+                        ret_names = [e.id for e in (rv.elts if isinstance(rv, ast.Tuple) else [rv]) if isinstance(e, ast.Name)]
+                    tgt_names = []
+                    if isinstance(st, ast.Assign):
+                        t = st.targets[0]
+                        tgt_names = [e.id for e in (t.elts if isinstance(t, ast.Tuple) else [t]) if isinstance(e, ast.Name)]
+                    rename, pre = {}, []
+                    for p_ in params:
+                        v_ = bind[p_]
+                        pure = isinstance(v_, (ast.Name, ast.Constant)) or (isinstance(v_, ast.Attribute) and not any(isinstance(x, ast.Call) for x in ast.walk(v_)))
+                        if pure and p_ not in stored:
+                            rename[p_] = v_
+                        elif isinstance(v_, ast.Name) and v_.id == p_:
+                            pass  # same name on both sides: the helper's re-binding is the caller's re-binding only if returned
+                        else:
+                            new = p_ if p_ not in caller_names else f"{p_}__{nm}"
+                            pre.append(ast.copy_location(ast.Assign(targets=[ast.Name(id=new, ctx=ast.Store())], value=v_), st))
+                            if new != p_:
+                                rename[p_] = ast.Name(id=new, ctx=ast.Load())
+                    for l_ in sorted(stored - set(params)):
+                        keep = (l_ in ret_names and l_ in tgt_names and ret_names.index(l_) == tgt_names.index(l_)) or l_ not in caller_names
+                        if not keep:
+                            rename[l_] = ast.Name(id=f"{l_}__{nm}", ctx=ast.Load())
+
+                    class R(ast.NodeTransformer):
+                        def visit_Name(self, n_):
+                            r_ = rename.get(n_.id)
+                            if r_ is None:
+                                return n_
+                            if isinstance(n_.ctx, ast.Load):
+                                return ast.copy_location(_copy.deepcopy(r_), n_)
+                            if isinstance(r_, ast.Name):
+                                return ast.copy_location(ast.Name(id=r_.id, ctx=n_.ctx), n_)
+                            return n_
+
+                    new_body = [R().visit(_copy.deepcopy(s)) for s in body]
+                    post = []
+                    if rets:
+                        new_body = new_body[:-1]
+                        rv = R().visit(_copy.deepcopy(rets[0].value)) if rets[0].value is not None else ast.Constant(value=None)
+                        if isinstance(st, ast.Assign):
+                            if ast.dump(_strip_ctx(st.targets[0])) != ast.dump(_strip_ctx(rv)):
+                                post.append(ast.copy_location(ast.Assign(targets=st.targets, value=rv), st))
+                        elif isinstance(st, ast.Return):
+                            post.append(ast.copy_location(ast.Return(value=rv), st))
+                        elif any(isinstance(x, ast.Call) for x in ast.walk(rv)):
+                            post.append(ast.copy_location(ast.Expr(value=rv), st))
+                    else:
+                        if isinstance(st, ast.Assign):
+                            post.append(ast.copy_location(ast.Assign(targets=st.targets, value=ast.Constant(value=None)), st))
+                        elif isinstance(st, ast.Return):
+                            post.append(ast.copy_location(ast.Return(value=None), st))
+                    blk[i : i + 1] = pre + new_body + post or [ast.copy_location(ast.Pass(), st)]
+                    cls_.body.remove(h)
+                    ast.fix_missing_locations(tree)
+                    refs[nm] = refs.get(nm, 1) - 1  # the body moved (its references with it); only this reference to the helper disappeared
+                    if cls_ in method_owners.get(nm, []):
+                        method_owners[nm].remove(cls_)
+                    changed = True
+        if not changed:
+            return
+
+
+def _ancestors(name, class_defs, _seen=None):
+    """Names of the (transitive) bases of class `name`, by base-class name."""
+    _seen = _seen if _seen is not None else set()
+    for c in class_defs.get(name, []):
+        for b in c.bases:
+            bn = b.attr if isinstance(b, ast.Attribute) else (b.id if isinstance(b, ast.Name) else None)
+            if bn and bn not in _seen:
+                _seen.add(bn)
+                _ancestors(bn, class_defs, _seen)
+    return _seen
+
+
+def _strip_ctx(e):
+    import copy as _copy
+
+    e = _copy.deepcopy(e)
+    for x in ast.walk(e):
+        if hasattr(x, "ctx"):
+            x.ctx = ast.Load()
+    return e
+
+
 class Program:
-    def __init__(self, repo: str = "/repo", overrides: Optional[Dict[str, str]] = None, strip_logging: bool = False, inline_temps: bool = False, propagate_aliases: bool = True):
+    def __init__(self, repo: str = "/repo", overrides: Optional[Dict[str, str]] = None, strip_logging: bool = False, inline_temps: bool = False, propagate_aliases: bool = True, inline_helpers: bool = True):
         """`overrides` maps repo-relative paths to replacement source text
         (in-memory scratch variants used by the mutation self-test).
         `strip_logging` removes effect-free module-logger statements from every
@@ -510,6 +730,7 @@ class Program:
         self.strip_logging = strip_logging
         self.inline_temps = inline_temps
         self.propagate_aliases = propagate_aliases
+        self.inline_helpers = inline_helpers
         self.repo = os.path.abspath(repo)
         self.pkgdir = os.path.join(self.repo, PKG)
         self.modules: Dict[str, ModuleInfo] = {}
@@ -525,6 +746,7 @@ class Program:
     def _load(self):
         if not os.path.isdir(self.pkgdir):
             raise AnalysisError(f"package directory not found: {self.pkgdir}")
+        parsed = []
         for root, dirs, files in os.walk(self.pkgdir):
             dirs[:] = sorted(d for d in dirs if d != "__pycache__")
             for f in sorted(files):
@@ -548,14 +770,18 @@ class Program:
                     raise AnalysisError(f"cannot parse {rel}: {e}")
                 if self.strip_logging:
                     _strip_logging(tree)
-                _normalise_syntax(tree)
-                if self.propagate_aliases:
-                    _propagate_aliases(tree)
-                if self.inline_temps:
-                    _inline_temps(tree)
-                m = ModuleInfo(modname, path, rel, source, tree, is_pkg)
-                self.modules[modname] = m
-                self._index_module(m)
+                parsed.append((modname, path, rel, source, tree, is_pkg))
+        if self.inline_helpers:
+            _inline_helpers([t[4] for t in parsed])
+        for modname, path, rel, source, tree, is_pkg in parsed:
+            _normalise_syntax(tree)
+            if self.propagate_aliases:
+                _propagate_aliases(tree)
+            if self.inline_temps:
+                _inline_temps(tree)
+            m = ModuleInfo(modname, path, rel, source, tree, is_pkg)
+            self.modules[modname] = m
+            self._index_module(m)
         if len(self.modules) < FLOOR_MODULES:
             raise AnalysisError(
                 f"only {len(self.modules)} modules parsed (floor {FLOOR_MODULES})"
